@@ -65,8 +65,8 @@ def rule_escape(ctx):
     f = drv_cls.find_method("message_from_client")
     news = {k: p.cls(f"{MSG}.news.New{k}Vector") for k in KINDS}
     parts = {k: p.cls(f"{MSG}.one_parts.One{k}") for k in KINDS}
-    layout = [("Text", "VT", True), ("Number", "VN", True), ("Switch", "VS", True), ("BLOB", "VB", True), ("Light", "VL", True)]
-    kind_of = {"VT": "Text", "VN": "Number", "VS": "Switch", "VB": "BLOB", "VL": "Light"}
+    from .driverworld import build_drivers
+    kind_of = {"V1": "Text", "V2": "Number", "V3": "Switch", "V4": "BLOB", "V22": "Light"}
     # elements are applied independently (one try/except each), so lists with several valid children are only explored
     # for the cheap kinds; the path count of one Number child is ~100 and multiplies per child.
     multi = [[], ["ZZ"], ["A"], ["A", "ZZ", "B"], ["A", "A"]]
@@ -75,15 +75,15 @@ def rule_escape(ctx):
     n = 0
     bad = False
     pol = _inline(p)
-    for target in ("VT", "VN", "VS", "VB", "VL", "NOPE"):
+    for target in ("V1", "V2", "V3", "V4", "V22", "NOPE"):
         for mk in KINDS:
             variants = [(ch, "opaque") for ch in lists_for[mk]] + [(ch, "none") for ch in lists_for[mk] if 0 < len(ch) <= 2]
             for children, valmode in variants:
                 n += 1
 
                 def run(it: Interp):
-                    drv, vecs = make_driver(p, layout)
-                    it.vecs = vecs
+                    drivers = build_drivers(it, p)
+                    drv = drivers["DEVA"]
                     kids = []
                     for i, c in enumerate(children):
                         # an element with an empty body parses to value=None
@@ -92,7 +92,7 @@ def rule_escape(ctx):
                             attrs["size"] = Term("param", f"size{i}", pytype="str")
                             attrs["format"] = Term("param", f"format{i}", pytype="str")
                         kids.append(Obj(parts[mk], attrs, label=f"child{i}:{c}"))
-                    msg = Obj(news[mk], {"device": Const("DEV"), "name": Const(target), "children": Lst(kids), "timestamp": Const(None), "__closed__": Const(True)}, label="newVector")
+                    msg = Obj(news[mk], {"device": Const("DEVA"), "name": Const(target), "children": Lst(kids), "timestamp": Const(None), "__closed__": Const(True)}, label="newVector")
                     return it.run_function(Fn(f, drv), [msg], {})
 
                 paths = explore(p, run, {"inline": pol, "assert_forks": True, "call_may_raise": _raiser, "max_depth": 10, "max_for": 1}, max_paths=60000)
@@ -112,10 +112,10 @@ def rule_escape(ctx):
                     stores = [e for e in pa.events if e.kind == "store" and e.data.get("attr") == "_value" and isinstance(e.data["base"], Obj)]
                     allowed = set()
                     if kind_of.get(target) == mk:
-                        allowed = {f"el:{target}.{c}" for c in children if c in ("A", "B")}
+                        allowed = {f"el:DEVA.{target}.{c}" for c in children if c in ("A", "B")}
                     for s in stores:
                         lab = s.data["base"].label
-                        if lab not in allowed and not (kind_of.get(target) == "Switch" and mk == "Switch" and lab.startswith(f"el:{target}.")):
+                        if lab not in allowed and not (kind_of.get(target) == "Switch" and mk == "Switch" and lab.startswith(f"el:DEVA.{target}.")):
                             ctx.violated("C12.ESCAPE", f.short, f"[{row}] changes element {lab}, which the message does not validly name", fi=f, text=f"stray-store:{'mismatch' if kind_of.get(target) != mk else 'other'}", witness=row)
                             bad = True
     ctx.counters["C12.ESCAPE:catalogue entries"] = n
